@@ -634,6 +634,32 @@ def h_collect(faults: bool):
              "f_seen": z3.BoolVal(False), "cur_is_w": False, "set2_0": None, "set3_0": None, "gc_calls": [], "prot": None,
              "prot_calls": 0, "reach_fault": False, "sweep_calls": 0, "order": [], "still": None, "prot_fault": False}
 
+        from contracts.readpath import install_count_contracts
+        install_count_contracts(h, g)
+        wsnap = SObj("Snapshot", {"manifest_list": SStr(ml_w), "snapshot_id": SInt(c.fresh_int("w_sid"))}, label="witness-snapshot")
+        wman = SObj("ManifestFile", {"manifest_path": SStr(mp_w)}, label="witness-manifest")
+        rec_w = SOpt(c.fresh_bool("w_manifest_count_unrecorded"), SInt(c.fresh_int("w_manifest_count")))
+        cnt_w = SOpt(c.fresh_bool("w_entry_count_unrecorded"), SInt(c.fresh_int("w_entry_count")))
+        g["exp"][("manifests", id(wsnap))] = rec_w
+        g["exp"][("entries", id(wman))] = cnt_w
+
+        def passed_is(v, want):
+            """z3: the keyword value handed to a reader is exactly the recorded count `want` (a present optional)"""
+            if v is None:
+                return z3.BoolVal(False)
+            if isinstance(v, SOpt):
+                return z3.And(z3.Not(v.isnone), pyops.int_z(v.val) == want.val.z)
+            return pyops.int_z(v) == want.val.z
+
+        def fresh_map(I, nm):
+            return SMapZ("str", "int", I.ctx.fresh(nm + "_has", z3.ArraySort(STR, z3.BoolSort())), I.ctx.fresh(nm + "_val", z3.ArraySort(STR, z3.IntSort())))
+
+        def map_has(env, name, key, want):
+            ok, m = env.lookup(name)
+            if isinstance(m, SMapZ):
+                return z3.And(z3.Select(m.has, key), z3.Select(m.val, key) == want.val.z)
+            return z3.BoolVal(False)
+
         def refresh(I, fv, args, kwargs):
             g["order"].append("refresh")
             if faults and I.ctx.flip("refresh-fault"):
@@ -646,9 +672,12 @@ def h_collect(faults: bool):
                 if I2.ctx.flip("snapshot-is-witness"):
                     I2.ctx.assume(in_snap)
                     g["cur_is_w"] = True
-                    return SObj("Snapshot", {"manifest_list": SStr(ml_w), "snapshot_id": SInt(I2.ctx.fresh_int("sid"))})
+                    return wsnap
                 g["cur_is_w"] = False
-                return SObj("Snapshot", {"manifest_list": SStr(I2.ctx.fresh_str("ml")), "snapshot_id": SInt(I2.ctx.fresh_int("sid"))})
+                o = SObj("Snapshot", {"manifest_list": SStr(I2.ctx.fresh_str("ml")), "snapshot_id": SInt(I2.ctx.fresh_int("sid"))})
+                # every snapshot has its own manifest list (the name embeds the snapshot id and a uuid token: WRITE-ONCE)
+                I2.ctx.assume(NORM(o.fields["manifest_list"].z) != NORM(ml_w), "WF: manifest lists are not shared between snapshots")
+                return o
             return SObj("TableMetadata", {"snapshots": TheoryObj("symiter", fields={"mk": mk_snap}),
                                           "current_snapshot_id": SOpt(I.ctx.fresh_bool("cur_none"), SInt(I.ctx.fresh_int("cur_id"))),
                                           "table_uuid": SStr(I.ctx.fresh_str("uuid")), "properties": PDict({})})
@@ -656,9 +685,16 @@ def h_collect(faults: bool):
 
         def reader(kind):
             def contract(I, fv, args, kwargs):
-                path = st.key(I, args[-1])
+                path = st.key(I, args[1])
                 st.log(kind, path=path)
                 g["reads_in_iteration"] = g.get("reads_in_iteration", 0) + 1
+                raw = pyops.str_z(args[1])      # the element of the reachable set being read (a normal form: what the dicts are keyed by)
+                if kind == "read_manifest_list_file":
+                    h.ensure("COUNT-CHECK:a-retained-snapshot's-manifest-list-is-read-with-the-manifest-count-that-snapshot-records",
+                             z3.Implies(z3.And(raw == NORM(ml_w), in_snap, z3.Not(rec_w.isnone)), passed_is(kwargs.get("expected_manifests"), rec_w)))
+                else:
+                    h.ensure("COUNT-CHECK:a-listed-manifest-is-read-with-the-entry-count-its-list-entry-records",
+                             z3.Implies(z3.And(raw == NORM(mp_w), in_snap, in_ml, z3.Not(cnt_w.isnone)), passed_is(kwargs.get("expected_entries"), cnt_w)))
                 if not I.ctx.decide(z3.Select(st.ex, path), f"{kind}-exists"):
                     g["reach_fault"] = True   # the reader itself refuses a missing file
                     g["fault_in_iteration"] = True
@@ -674,9 +710,15 @@ def h_collect(faults: bool):
                         if I2.ctx.flip("manifest-is-witness"):
                             I2.ctx.assume(z3.And(path == NORM(ml_w), in_ml))
                             g["cur_is_w"] = True
-                            return SObj("ManifestFile", {"manifest_path": SStr(mp_w)})
+                            return wman
                         g["cur_is_w"] = False
-                        return SObj("ManifestFile", {"manifest_path": SStr(I2.ctx.fresh_str("mp"))})
+                        om = SObj("ManifestFile", {"manifest_path": SStr(I2.ctx.fresh_str("mp"))})
+                        # a manifest carried over into several lists has the SAME counts in each of them (entries are copied)
+                        oc = SOpt(I2.ctx.fresh_bool("entry_count_unrecorded"), SInt(I2.ctx.fresh_int("entry_count")))
+                        g["exp"][("entries", id(om))] = oc
+                        I2.ctx.assume(z3.Implies(NORM(om.fields["manifest_path"].z) == NORM(mp_w), z3.And(oc.isnone == cnt_w.isnone, oc.val.z == cnt_w.val.z)),
+                                      "WRITE-ONCE: list entries naming the same manifest agree on its counts")
+                        return om
                     if I2.ctx.flip("file-is-witness"):
                         I2.ctx.assume(z3.And(path == NORM(mp_w), in_mf))
                         g["cur_is_w"] = True
@@ -730,12 +772,15 @@ def h_collect(faults: bool):
             s1 = setvar(env, "reachable_manifest_lists")
             if it.get("after_body") and g["cur_is_w"]:
                 g["s_seen"] = z3.BoolVal(True) if True else g["s_seen"]
+            cnt = ("COUNT-CHECK:inv:recorded-manifest-count-of-a-seen-snapshot-is-remembered-for-its-list",
+                   z3.Implies(z3.And(g["s_seen"], z3.Not(rec_w.isnone)), map_has(env, "expected_manifests", NORM(ml_w), rec_w)))
             if isinstance(s1, SSetZ):
-                return [("REACH-ALL:inv:retained-snapshot's-list-collected", z3.Implies(g["s_seen"], z3.IsMember(NORM(ml_w), s1.z)))]
-            return [("REACH-ALL:inv:retained-snapshot's-list-collected", z3.Not(g["s_seen"]))]
+                return [("REACH-ALL:inv:retained-snapshot's-list-collected", z3.Implies(g["s_seen"], z3.IsMember(NORM(ml_w), s1.z))), cnt]
+            return [("REACH-ALL:inv:retained-snapshot's-list-collected", z3.Not(g["s_seen"])), cnt]
 
         def havoc0(I, env, it):
             env.vars["reachable_manifest_lists"] = fresh_set(I, "lists")
+            env.vars["expected_manifests"] = fresh_map(I, "expected_manifests")
             g["s_seen"] = I.ctx.fresh_bool("s_seen")
             g["cur_is_w"] = False
 
@@ -751,13 +796,16 @@ def h_collect(faults: bool):
                          z3.BoolVal(g.get("reads_in_iteration", 0) == 1))] + \
                     ([("REACH-ALL:inv:manifests-of-processed-lists-collected",
                        z3.Implies(z3.And(z3.IsMember(NORM(ml_w), it["done"]), in_ml), z3.IsMember(NORM(mp_w), s2.z)))] if isinstance(s2, SSetZ) else [])
+            cnt = ("COUNT-CHECK:inv:recorded-entry-count-of-a-processed-list's-manifest-is-remembered",
+                   z3.Implies(z3.And(z3.IsMember(NORM(ml_w), it["done"]), in_ml, z3.Not(cnt_w.isnone)), map_has(env, "expected_entries", NORM(mp_w), cnt_w)))
             if isinstance(s2, SSetZ):
                 return [("REACH-ALL:inv:manifests-of-processed-lists-collected",
-                         z3.Implies(z3.And(z3.IsMember(NORM(ml_w), it["done"]), in_ml), z3.IsMember(NORM(mp_w), s2.z)))]
-            return []
+                         z3.Implies(z3.And(z3.IsMember(NORM(ml_w), it["done"]), in_ml), z3.IsMember(NORM(mp_w), s2.z))), cnt]
+            return [cnt]
 
         def havoc1(I, env, it):
             env.vars["reachable_manifests"] = fresh_set(I, "manifests")
+            env.vars["expected_entries"] = fresh_map(I, "expected_entries")
             g["set2_0"] = env.vars["reachable_manifests"].z
             g["fault_in_iteration"] = False
             g["reads_in_iteration"] = 0
@@ -767,10 +815,13 @@ def h_collect(faults: bool):
             if it.get("after_body") and g["cur_is_w"]:
                 g["m_seen"] = z3.BoolVal(True)
             return [("REACH-ALL:inv:set-only-grows", z3.IsSubset(g["set2_0"], s2.z)),
-                    ("REACH-ALL:inv:seen-manifest-collected", z3.Implies(g["m_seen"], z3.IsMember(NORM(mp_w), s2.z)))]
+                    ("REACH-ALL:inv:seen-manifest-collected", z3.Implies(g["m_seen"], z3.IsMember(NORM(mp_w), s2.z))),
+                    ("COUNT-CHECK:inv:recorded-entry-count-of-a-seen-manifest-is-remembered",
+                     z3.Implies(z3.And(g["m_seen"], z3.Not(cnt_w.isnone)), map_has(env, "expected_entries", NORM(mp_w), cnt_w)))]
 
         def havoc3(I, env, it):
             env.vars["reachable_manifests"] = fresh_set(I, "manifests_in")
+            env.vars["expected_entries"] = fresh_map(I, "expected_entries_in")
             g["m_seen"] = I.ctx.fresh_bool("m_seen")
             g["cur_is_w"] = False
 
@@ -817,7 +868,7 @@ def h_collect(faults: bool):
             I.ctx.assume(z3.Implies(z3.And(pyops.str_z(m) == NORM(mp_w), in_mf), g["f_seen"]), "rule ALL-VISITED")
 
         skipv = ["reachable_manifest_lists", "reachable_manifests", "reachable_data_files", "m_list_path", "m_path", "manifests",
-                 "data_files", "m", "df", "snapshot"]
+                 "data_files", "m", "df", "snapshot", "expected_manifests", "expected_entries", "norm_list", "norm_manifest", "recorded", "count"]
         h.reg.loops[f"{GC}:GarbageCollector.collect"] = {
             "iter:metadata.snapshots": LoopSpec(invariant=inv0, havoc=havoc0, on_exit=exit0, name="snapshots", skip=skipv),
             "iter:reachable_manifest_lists": LoopSpec(invariant=inv1, havoc=havoc1, name="manifest-lists", skip=skipv),
@@ -965,3 +1016,6 @@ sys.exit(1 if bad else 0)
 
 register(Unit("C05", "COLLECT/reach-all", h_collect(False), functions=[f"{GC}:GarbageCollector.collect"], replay=_replay_collect))
 register(Unit("C07", "COLLECT/abort-reach", h_collect(True), functions=[f"{GC}:GarbageCollector.collect"], replay=_replay_collect))
+
+from contracts import helpers as _HC  # noqa: E402
+_HC.register_under("C05", ["COUNT/recorded_manifest_count", "COUNT/expected_entry_count", "COUNT/_check_count"])
